@@ -31,18 +31,18 @@ fn lifetime(extra: usize, v6: bool, who: u8) {
     let ip_bytes: [u8; 16] = kani::any();
     let other_bytes: [u8; 16] = kani::any();
     let idle_before_s: u64 = kani::any(); // store age when the token is issued
-    let gap_s: [u64; 3] = kani::any(); // waits before extra event 0, extra event 1, final check
-    let gap_ns: [u32; 3] = kani::any();
-    let ev_kind: [u8; 2] = kani::any(); // 0 nothing, 1 checkout(other ip), 2 checkin(other ip, issued token), 3 checkout(same ip)
+    let gap_s: [u64; 4] = kani::any(); // waits before the extra events (up to 3) and, last, before the final check
+    let gap_ns: [u32; 4] = kani::any();
+    let ev_kind: [u8; 3] = kani::any(); // 0 nothing, 1 checkout(other ip), 2 checkin(other ip, issued token), 3 checkout(same ip)
     // who: 0 same ip + issued token, 1 other ip + issued token, 2 same ip + never-issued bytes, 3 same ip + token of another store
     let junk: [u8; 20] = kani::any();
     kani::assume(idle_before_s <= 3 * 3600);
     let mut i = 0;
-    while i < 3 {
+    while i < 4 {
         kani::assume(gap_s[i] <= 3600 && gap_ns[i] < 1_000_000_000);
         i += 1;
     }
-    kani::assume(ev_kind[0] <= 3 && ev_kind[1] <= 3);
+    kani::assume(ev_kind[0] <= 3 && ev_kind[1] <= 3 && ev_kind[2] <= 3);
     kani::assume(!same_ip(v6, &ip_bytes, &other_bytes));
     let ip = ip_from(v6, ip_bytes);
     let other = ip_from(v6, other_bytes);
@@ -76,7 +76,7 @@ fn lifetime(extra: usize, v6: bool, who: u8) {
         }
         e += 1;
     }
-    clock::wait(Duration::new(gap_s[2], gap_ns[2]));
+    clock::wait(Duration::new(gap_s[3], gap_ns[3]));
     let age = clock::now().saturating_sub(issued_at);
 
     match who {
@@ -195,6 +195,22 @@ fn c06_never_issued_k1_v6() {
 #[kani::stub(crate::info_hash::InfoHash::sha1, crate::verif::stub_sha1)]
 fn c06_foreign_store_k1_v6() {
     lifetime(1, true, 3);
+}
+
+#[kani::proof]
+#[kani::unwind(21)]
+#[kani::stub(rand::random, crate::verif::stub_random_distinct)]
+#[kani::stub(crate::info_hash::InfoHash::sha1, crate::verif::stub_sha1)]
+fn c06_other_ip_k0_v6() {
+    lifetime(0, true, 1);
+}
+
+#[kani::proof]
+#[kani::unwind(21)]
+#[kani::stub(rand::random, crate::verif::stub_random_distinct)]
+#[kani::stub(crate::info_hash::InfoHash::sha1, crate::verif::stub_sha1)]
+fn c06_lifetime_k3_v4() {
+    lifetime(3, false, 0);
 }
 
 /// Token::new accepts exactly 20 bytes (each length its own concrete instance, content symbolic).
